@@ -6,17 +6,22 @@ package defaults
 // code). Comment-only: no code; visible only with the build tag "verif".
 //
 //@ func (Redirector).redirectNonAPI
-//@   property C15
+//@   property C15 C10
 //@   -- the browser is sent to the configured path, or to a client-supplied target that no
 //@   -- browser resolves to another origin
 //@   -- (the Location header is what net/http.Redirect makes of the target: it cleans the path
 //@   -- first, which can move a backslash segment to the front - offsite_cleaned accounts for it)
 //@   ensures guard: each HTTPRedirect(_, ?url, ?code) => code == 302 && (url == ro.RedirectPath || !offsite_cleaned(url))
 //@   ensures param_only_when_asked: each HTTPRedirect(_, ?url, _) => (!ro.FollowRedirParam ==> url == ro.RedirectPath)
-//@   ensures redirects_once: !panics ==> emits HTTPRedirect(_, _, _)
+//@   -- (C10: logout queues its deletions and relies on the redirect to write the response that
+//@   -- delivers them - whatever the request's redir parameter is, it is answered, without error)
+//@   ensures[C15,C10] redirects_once: !panics ==> ((emits HTTPRedirect(_, _, _)) && result == nil)
 //@
 //@ func (Redirector).redirectAPI
-//@   property C15 C16
+//@   property C15 C16 C10
+//@   -- C10: the JSON answer is written unless the renderer itself failed; the request's redir
+//@   -- parameter never turns a redirect into an error
+//@   ensures[C10] answers_unless_render_fails: !panics ==> ((emits Write(_, _)) || (emits Render(_, _) -> (_, _, ?e) :: e != nil && result == e))
 //@   -- C16: what the default redirector adds to a response does not depend on who the request is
 //@   -- about: the only header it sets is the content type
 //@   ensures[C16] headers_fixed: each HeaderSet(_, ?k, _) => k == "Content-Type"
@@ -85,7 +90,10 @@ package defaults
 //@ -- submitted ones, and the extra fields are whitelisted keys with their submitted values).
 //@ spec in_list(l, q) := exists j int :: 0 <= j && j < len(l) && elem(l, j) == q
 //@ func (HTTPBodyReader).Read
-//@   property C19
+//@   property C19 C17
+//@   -- C17: the reader sees the raw body (password, codes, tokens); nothing of it goes into a
+//@   -- log line or into the error it returns (which the error handler logs)
+//@   ensures[C17] no_secret_leak: secrets_clean
 //@   invariant loop#1 only_whitelisted: forall q string :: maphas(arbitrary, q) ==> (in_list(whitelist, q) && mapget(arbitrary, q) == mapget(values, q))
 //@   invariant loop#2 only_whitelisted_inner: rangeindex >= -1 &&
 //@       (forall q string :: maphas(arbitrary, q) ==> (in_list(whitelist, q) && mapget(arbitrary, q) == mapget(values, q)))
